@@ -80,7 +80,7 @@ def draw_sched(rng, line=True):
         d["p_line"] = rng.choice([0.005, 0.02, 0.1])
         d["opcode"] = True
     d["policy"] = pol
-    d["quantum"] = rng.choice([1e-6, 2e-6, 5e-6, 2e-5])
+    d["quantum"] = rng.choice([1e-6, 2e-6, 5e-6, 1e-5])
     return d
 
 
